@@ -592,3 +592,93 @@ Section AGG.
       + exact (ref_spans_NoDup re_match parse_float c d e (g_trace g)).
   Qed.
 End AGG.
+
+(* ================================================================ one portion of a complex request, with an aggregate filter *)
+Section AGGP.
+  Variable re_match : string -> string -> bool.
+  Variable parse_float : string -> option Q.
+  Variable hash64 : string -> Z.
+  Variable c : ctx.
+  Variable d : db.
+  Hypothesis Hok : rf_ok c = true.
+  Notation V := (visible hash64 c d).
+  Hypothesis Hcons : db_consistent c V.
+  Hypothesis Hcap : spans_capped c V.
+
+  Variable e : attr_exp.
+  Notation cd := (fst (analyze_cond e ([], []))).
+  Notation terms := (fst (snd (analyze_cond e ([], [])))).
+  Hypothesis Hkeys : keys_ok e = true.
+  Hypothesis Hlits : forallb term_lit_ok terms = true.
+  Hypothesis Hlen : List.length terms <= 64.
+  Hypothesis Hdepth : cond_depth cd <= 28.
+  Hypothesis Hexact : lits_exact e = true.
+  Variable ag : aggregator.
+  Hypothesis Hguard : agg_guard ag = true.
+  Hypothesis Hagx : agg_lit_exact ag = true.
+  Variable ao : andor.
+  Notation attr := (g_attr ag).
+
+  Theorem traceql_correct_agg_portion n s :
+    plan (q2 e ag ao) MSearch c n = Ok s ->
+    exists res, index_rows_g re_match parse_float hash64 c d s = Some res
+                /\ result_ok c (traceql_sem re_match parse_float false c V (q2 e ag ao)) res = true.
+  Proof.
+    intros Hplan. destruct (rf_single c Hok) as [x Hx].
+    unfold plan, plan_search, plan_index, q2 in Hplan. cbn [sc_tail] in Hplan. unfold simple_planner in Hplan.
+    cbn [check sel_attr sel_agg bind sc_head tails_have_attr] in Hplan.
+    destruct (agg_lacks_attr {| sel_attr := Some e; sel_agg := Some ag |}) eqn:Hla; [discriminate|]. cbn [bind] in Hplan.
+    unfold analyze in Hplan. cbn [sel_attr] in Hplan. destruct (analyze_cond e ([], [])) as [cd0 [ts0 mp0]] eqn:Ea. cbn [fst snd] in *.
+    unfold agg_attr_of in Hplan. cbn [sel_agg] in Hplan.
+    destruct (map_res get_term ts0) as [conds|er|] eqn:Hc; [|unfold attr_condition in Hplan; rewrite Hc in Hplan; discriminate..].
+    pose proof (attr_condition_gen c e attr conds) as Hs. rewrite Ea in Hs. cbn [fst snd] in Hs.
+    rewrite (Hs Hc n), Hx in Hplan. cbn [bind] in Hplan.
+    unfold aggregator_planner in Hplan. destruct (comparison_fn (g_cmp ag)) as [fn|er|] eqn:Ef; cbn [bind] in Hplan; try discriminate.
+    destruct (agg_cmp_text ag) as [txt|er|] eqn:Et; cbn [bind] in Hplan; try discriminate.
+    destruct (comparison_fn_lop _ _ Ef) as [Hord ->].
+    assert (Hc' : map_res get_term (fst (snd (analyze_cond e ([], [])))) = Ok conds) by now rewrite Ea.
+    assert (Hlits' : forallb term_lit_ok (fst (snd (analyze_cond e ([], [])))) = true) by now rewrite Ea.
+    assert (Hlen' : List.length (fst (snd (analyze_cond e ([], [])))) <= 64) by now rewrite Ea.
+    assert (Hdepth' : cond_depth (fst (analyze_cond e ([], []))) <= 28) by now rewrite Ea.
+    set (S1 := and_where [x] (stmt1 c e attr conds)) in *.
+    set (T := sql_spans re_match parse_float c V e attr conds).
+    set (HV := hv2 ag txt).
+    assert (Eg : index_limit c (and_having [LOp (lop_of (g_cmp ag)) [agg_expr (g_fn ag) ""; FloatV txt]] (index_groupby "" S1))
+                 = grouped_stmt "" false [("index_search", S1)] (Some HV) (lim_of c)).
+    { unfold index_limit, lim_of, HV, hv2, hv2p. destruct (Z.eqb (limit c) 0); reflexivity. }
+    rewrite Eg in Hplan. injection Hplan as <-.
+    assert (Hw : exists rest, s_withs (index_limit c (traces_data c (grouped_stmt "" false [("index_search", S1)] (Some HV) (lim_of c))))
+                              = ("index_search", S1) :: ("index_grouped", grouped_stmt "" false [("index_search", S1)] (Some HV) (lim_of c)) :: rest).
+    { unfold index_limit. destruct (Z.eqb (limit c) 0); unfold traces_data, grouped_stmt, S1, stmt1;
+        cbn [and_where and_into set_with set_limit s_withs fold_left add_with existsb fst snd app]; eexists; reflexivity. }
+    destruct Hw as [rest Hw].
+    set (P := P2 re_match parse_float c V e ag).
+    assert (Hans : exists SEL, grouped_answer T P (lim_of c) = Some SEL).
+    { unfold grouped_answer, lim_of. destruct (Z.eqb (limit c) 0); [eexists; reflexivity|].
+      change (map (fun g => ([VInt (g_key g)], g)) (tgroups T P)) with (map (fun g => enc (g_key g, g)) (tgroups T P)).
+      rewrite <- (map_map (fun g => (g_key g, g)) enc), sort_by_enc. eexists; reflexivity. }
+    destruct Hans as [SEL Hans].
+    exists (map (fun g => (g_trace g, g_spans g)) SEL). split.
+    - unfold index_rows_g. rewrite Hw. cbn [eval_until_g].
+      change 12 with (S 11). rewrite eval_sel_S. unfold S1.
+      rewrite (index_search_bridge_portion re_match parse_float hash64 c d e attr conds Hkeys Hc' Hlits' Hlen' Hdepth' Hok x Hx). fold T.
+      change (String.eqb "index_search" "index_grouped") with false. cbv iota.
+      rewrite eval_sel_S.
+      assert (Hal : having_aliases ev_fuel HV = []).
+      { unfold HV, hv2, hv2p. apply having_aliases_nil_LOp2; [destruct (g_fn ag); reflexivity|reflexivity]. }
+      rewrite (grouped_bridge re_match parse_float hash64 [(attrs_table c, map row_of_irow d)] "" false
+                 (eval_sel re_match parse_float hash64 [(attrs_table c, map row_of_irow d)] 11)
+                 [("index_search", map mspan_row T)] T eq_refl (Some HV) P Hal).
+      + rewrite Hans. cbn [option_map]. rewrite String.eqb_refl. rewrite map_map.
+        apply all_some_map_ext. intros g _. unfold g_row. cbn [app lookup String.eqb Ascii.eqb Bool.eqb].
+        now rewrite all_some_VStr.
+      + intros h m0 rest' Hh Hg. injection Hh as <-.
+        exact (hv2_decides re_match parse_float hash64 c V Hcons e Hkeys Hlits' Hlen' ag Hguard conds Hc' txt Hord Et Hla _ "" false m0 rest' Hg).
+      + discriminate.
+    - rewrite (sem_agg_round re_match parse_float c V e Hexact ag Hagx ao).
+      exact (answer_ok T (matched_of re_match parse_float c V e) (mspan_of parse_float attr) (fun _ => eq_refl) (fun _ => eq_refl) (fun _ => eq_refl)
+               (mem_spans re_match parse_float c V Hcons e Hkeys Hlits' Hlen' attr conds Hc') P (agg_sem parse_float true ag)
+               (fun _ _ => eq_refl) (cap_spans re_match parse_float c V Hcons Hcap e Hkeys Hlits' Hlen' attr conds Hc') c SEL Hans).
+  Qed.
+End AGGP.
+
